@@ -246,7 +246,7 @@ func wrapBranch(name string, message profile.Message, branch BranchRegoResult, m
 		}
 	}
 
-	acc = append(acc, fmt.Sprintf("  %s := error(\"%s\",%s, message ,[%s])", matchesVariable, name, mappingVariable, strings.Join(resultBindings, ",")))
+	acc = append(acc, fmt.Sprintf("  %s := error(%s,%s, message ,[%s])", matchesVariable, regoString(name), mappingVariable, strings.Join(resultBindings, ",")))
 	return acc
 }
 
